@@ -60,8 +60,11 @@ Inductive obsres :=
 Definition err_compat (model observed : err) : bool :=
   err_eqb model observed || (err_eqb model ENilDeref && err_eqb observed EReflect).
 
+(* EUnspec: the model reached a float -> integer conversion of NaN / an out-of-range value, which the Go
+   specification leaves implementation-defined: nothing is compared on such a case *)
 Definition res_matches (r : result) (o : obsres) : bool :=
   match r, o with
+  | Stop EUnspec _ _, _ => true
   | Done v s, ODone v' t => veq v v' && trace_eq (r_trace s) t
   | Stop e l s, OStop e' l' t => err_compat e e' && loc_eqb l l' && trace_eq (r_trace s) t
   | _, _ => false
